@@ -372,7 +372,7 @@ Definition ent_den (e : entity) : den :=
   match e with
   | EFunc id _ => DProc id
   | EProc id => DProc id
-  | EVar _ _ => DVar
+  | EVar _ _ _ => DVar
   | EType _ => DType
   end.
 
@@ -385,7 +385,7 @@ Fixpoint denote (tb : symtab) (ctx : labels) (ch : chain) : den :=
   | [x] => match assoc_get x ctx with Some e => ent_den e | None => DUnknown end
   | x :: rest =>
     match assoc_get x ctx with
-    | Some (EVar t _) => match assoc_get t (st_types tb) with Some c => denote tb c rest | None => DUnknown end
+    | Some (EVar t _ _) => match assoc_get t (st_types tb) with Some c => denote tb c rest | None => DUnknown end
     | Some (EFunc _ t) => match assoc_get t (st_types tb) with Some c => denote tb c rest | None => DUnknown end
     | Some (EType t) => match assoc_get t (st_types tb) with Some c => denote tb c rest | None => DUnknown end
     | _ => DUnknown
@@ -480,36 +480,46 @@ Definition classify0 (tb : symtab) (ch : chain) : list str :=
   | DType => []
   end.
 
-(* 3: a declared user procedure spelled like an entry of INTRINSICS is invoked *)
-Definition region_intrinsic_named (tb : symtab) (ss : list stmt) : bool :=
-  existsb (fun ch => is_proc_den (denote tb (st_scope tb) ch) && str_in (last_of ch) INTRINSICS) (some_refs ss).
+(* 3: the unit sees a procedure spelled like a statement keyword of the grammar: "wait (...)" or "write (...)"
+   then looks like a reference to it *)
+Definition region_keyword_named (tb : symtab) : bool :=
+  existsb (fun kw => is_proc_den (denote tb (st_scope tb) [kw])) grammar_keywords.
+(* ... and the unit has a statement with that keyword *)
+Definition stmt_keywords (st : stmt) : list str :=
+  flat_map (fun g => match g with GKw kw _ _ => [lower kw] | _ => [] end) (stmt_segs st).
+Definition region_keyword_used (tb : symtab) (ss : list stmt) : bool :=
+  existsb (fun kw => is_proc_den (denote tb (st_scope tb) [kw])) (flat_map stmt_keywords ss).
 
 (* FORD's tables against the tables Fortran's scoping gives, on the references of this unit:
    1: a reference that is a variable or type in truth is unknown to FORD (unresolved array)
    7: any other difference in what a reference denotes (name resolution, property C07) *)
 Definition ford_class (tb : symtab) (ch : chain) : list str :=
-  match find_chain tb (st_scope tb) ch with
-  | None => if str_in (last_of ch) INTRINSICS then [] else [unresolved_name tb ch]
-  | Some (EVar _ _) => []
-  | Some (EType _) => []
-  | Some (EFunc id _) => if str_in (last_of ch) INTRINSICS then [] else [id]
-  | Some (EProc id) => if str_in (last_of ch) INTRINSICS then [] else [id]
-  end.
+  if str_in (last_of ch) INTRINSICS then
+    match find_chain tb (st_scope tb) ch with
+    | Some (EFunc id _) | Some (EProc id) => [id]
+    | _ => []
+    end
+  else
+    match find_call tb ch with
+    | None => [unresolved_name tb ch]
+    | Some (EVar _ _ _) => []
+    | Some (EType _) => []
+    | Some (EFunc id _) => [id]
+    | Some (EProc id) => [id]
+    end.
 
 Definition region_unresolved (tb_ford tb_true : symtab) (ss : list stmt) : bool :=
-  existsb (fun ch => match find_chain tb_ford (st_scope tb_ford) ch, denote tb_true (st_scope tb_true) ch with
+  existsb (fun ch => match find_call tb_ford ch, denote tb_true (st_scope tb_true) ch with
                      | None, DVar => true
                      | None, DType => true
                      | _, _ => false
                      end) (some_refs ss).
 Definition region_tables (tb_ford tb_true : symtab) (ss : list stmt) : bool :=
-  existsb (fun ch => negb (list_eqb str_eqb (ford_class tb_ford ch)
-                                   (if is_proc_den (denote tb_true (st_scope tb_true) ch) && str_in (last_of ch) INTRINSICS
-                                    then [] else classify0 tb_true ch))) (some_refs ss).
+  existsb (fun ch => negb (list_eqb str_eqb (ford_class tb_ford ch) (classify0 tb_true ch))) (some_refs ss).
 
-(* the open regions (2, 4, 5, 6, 8, 9 were repaired in FORD) *)
+(* the open regions (2, 4, 5, 6, 8, 9 and the former 3, procedures spelled like INTRINSICS entries, were repaired in FORD) *)
 Definition region_of (tb_ford tb_true : symtab) (ss : list stmt) : nat :=
   if region_unresolved tb_ford tb_true ss then 1
   else if region_tables tb_ford tb_true ss then 7
-  else if region_intrinsic_named tb_true ss then 3
+  else if region_keyword_used tb_true ss then 3
   else 0.
